@@ -197,21 +197,60 @@ func init() {
 		NotCovered: "seek/rewind landing positions for particular key shapes, 0xff prefixes in bytesPrefix, and the third-party engines themselves (V: generated operation sequences against a sorted-map model).",
 		Rules: []core.Rule{
 			rule("R06a", "every Iterator constructor normalises the bounds the same way and passes them on unchanged", 24, func(r *Run) {
-				for _, fn := range iterFns {
-					endNil := core.RelGuard("end-missing", core.IsObj("param:1"), token.EQL, isNilLit)
-					core.Dominated{Fn: fn, Spec: &core.FlowSpec{Conds: []core.CondGuard{endNil}}, Sink: core.CallSink("common/db.bytesPrefix"), Need: []Fact{"end-missing"}, Min: 1}.Check(r)
-					core.Dominated{Fn: fn, Spec: &core.FlowSpec{Assume: core.AssumeRel(core.IsObj("param:1"), token.EQL, isNilLit, core.True), Calls: []core.CallGuard{called("prefix-bound", "common/db.bytesPrefix")}},
-						Sink: core.AnyReturn(), Need: []Fact{"prefix-bound"}, Min: 1}.Check(r)
-					core.CallArgs{Fn: fn, Callee: []string{"common/db.bytesPrefix"}, What: "upper bound of the start prefix", Args: map[int]core.ExprPred{0: core.IsObj("param:0")}, Min: 1}.Check(r)
-					// EmptyValue ⇒ end = nil
-					f := r.Fn(fn)
+				for _, ctor := range iterFns {
+					f := r.Fn(ctor)
 					if f == nil {
 						continue
 					}
-					unb := core.BoolGuard("unbounded-marker", core.CallAtomSym("bytes.Equal", core.IsObj("param:1"), core.IsObj("types.EmptyValue")), true)
+					// the normalisation may live in the constructor or in a helper of the package the constructor
+					// hands (start, end) to and whose result becomes the end bound: `end = helper(start, end)`
+					fn, pStart, pEnd := ctor, "param:0", "param:1"
+					if !calleeSet(f)["common/db.bytesPrefix"] {
+						c0 := f.Ctx()
+						ast.Inspect(f.Body(), func(x ast.Node) bool {
+							as, ok := x.(*ast.AssignStmt)
+							if !ok || len(as.Lhs) != 1 || len(as.Rhs) != 1 || !core.IsObj("param:1")(c0, as.Lhs[0]) {
+								return true
+							}
+							call, ok := ast.Unparen(as.Rhs[0]).(*ast.CallExpr)
+							if !ok {
+								return true
+							}
+							h := r.W.FuncOf(core.Callee(c0.Info, call))
+							if h == nil || h.Pkg != f.Pkg || !calleeSet(h)["common/db.bytesPrefix"] {
+								return true
+							}
+							si, ei := -1, -1
+							for i, a := range call.Args {
+								if core.IsObj("param:0")(c0, a) {
+									si = i
+								}
+								if core.IsObj("param:1")(c0, a) {
+									ei = i
+								}
+							}
+							if si >= 0 && ei >= 0 {
+								fn, pStart, pEnd = h.Name, fmt.Sprintf("param:%d", si), fmt.Sprintf("param:%d", ei)
+								r.OK(fmt.Sprintf("%s normalises its end bound through %s(start, end)", f.Name, h.Name), r.W.Pos(as.Pos()), "end = helper(start, end); the helper is checked in the constructor's place")
+							}
+							return true
+						})
+					}
+					endNil := core.RelGuard("end-missing", core.IsObj(pEnd), token.EQL, isNilLit)
+					core.Dominated{Fn: fn, Spec: &core.FlowSpec{Conds: []core.CondGuard{endNil}}, Sink: core.CallSink("common/db.bytesPrefix"), Need: []Fact{"end-missing"}, Min: 1}.Check(r)
+					core.Dominated{Fn: fn, Spec: &core.FlowSpec{Assume: core.AssumeRel(core.IsObj(pEnd), token.EQL, isNilLit, core.True), Calls: []core.CallGuard{called("prefix-bound", "common/db.bytesPrefix")}},
+						Sink: core.AnyReturn(), Need: []Fact{"prefix-bound"}, Min: 1}.Check(r)
+					core.CallArgs{Fn: fn, Callee: []string{"common/db.bytesPrefix"}, What: "upper bound of the start prefix", Args: map[int]core.ExprPred{0: core.IsObj(pStart)}, Min: 1}.Check(r)
+					// EmptyValue ⇒ end = nil (or, in a helper, `return nil`)
+					unb := core.BoolGuard("unbounded-marker", core.CallAtomSym("bytes.Equal", core.IsObj(pEnd), core.IsObj("types.EmptyValue")), true)
 					core.Dominated{Fn: fn, Spec: &core.FlowSpec{Conds: []core.CondGuard{unb}}, Sink: core.SinkPred{Label: "end = nil", Match: func(fl *core.Flow, n *core.GNode) bool {
-						as, ok := n.Ast.(*ast.AssignStmt)
-						return ok && len(as.Lhs) == 1 && len(as.Rhs) == 1 && core.IsObj("param:1")(fl.C, as.Lhs[0]) && isNilLit(fl.C, as.Rhs[0])
+						if as, ok := n.Ast.(*ast.AssignStmt); ok {
+							return len(as.Lhs) == 1 && len(as.Rhs) == 1 && core.IsObj(pEnd)(fl.C, as.Lhs[0]) && isNilLit(fl.C, as.Rhs[0])
+						}
+						if rs, ok := n.Ast.(*ast.ReturnStmt); ok && fn != ctor {
+							return len(rs.Results) == 1 && isNilLit(fl.C, rs.Results[0])
+						}
+						return false
 					}}, Need: []Fact{"unbounded-marker"}, Min: 1}.Check(r)
 					// itBase{start, end, reverse}
 					c := f.Ctx()
@@ -470,16 +509,19 @@ func init() {
 					c := f.Ctx()
 					label := f.Name + " applies the recorded operations first to last"
 					n, good := 0, false
+					// a forward walk over the recorded list: `for … range b.writes`, or `for i := 0; i < len(b.writes); i++`,
+					// also through a local that is a plain copy of the field
+					writes := core.Resolved(recvField("writes"))
 					for _, lp := range core.LoopsIn(f) {
 						n++
-						if rs, ok := lp.(*ast.RangeStmt); ok && recvField("writes")(c, rs.X) {
+						if core.CountsOver(writes, 0)(c, lp) {
 							good = true
 						}
 					}
 					if good && n == 1 {
-						r.OK(label, r.W.Pos(f.Node().Pos()), "for … range b.writes")
+						r.OK(label, r.W.Pos(f.Node().Pos()), "one forward loop over b.writes")
 					} else {
-						r.Fail(label, r.W.Pos(f.Node().Pos()), fmt.Sprintf("expected exactly one loop, a forward range over b.writes; found %d loop(s)", n))
+						r.Fail(label, r.W.Pos(f.Node().Pos()), fmt.Sprintf("expected exactly one loop, a forward walk over b.writes; found %d loop(s)", n))
 					}
 				}
 				isDel := core.RelGuard("delete-marker", recvField("v"), token.EQL, isNilLit)
